@@ -14,6 +14,7 @@ package webrtc
 
 import (
 	"fmt"
+	"io"
 	"math/big"
 	"runtime/debug"
 	"testing"
@@ -33,15 +34,22 @@ type c28Pkt struct {
 type c28Writer struct {
 	cur  int
 	pkts []c28Pkt
+	fail bool // every write returns io.ErrClosedPipe and records nothing
 }
 
 func (w *c28Writer) WriteRTP(h *rtp.Header, _ []byte) (int, error) {
+	if w.fail {
+		return 0, io.ErrClosedPipe
+	}
 	w.pkts = append(w.pkts, c28Pkt{seq: h.SequenceNumber, ts: h.Timestamp, sample: w.cur})
 
 	return 0, nil
 }
 
 func (w *c28Writer) Write(b []byte) (int, error) {
+	if w.fail {
+		return 0, io.ErrClosedPipe
+	}
 	p := rtp.Packet{}
 	if err := p.Unmarshal(b); err == nil {
 		w.pkts = append(w.pkts, c28Pkt{seq: p.SequenceNumber, ts: p.Timestamp, sample: w.cur})
@@ -75,7 +83,9 @@ type c28Case struct {
 // c28Bindings are the ways the track is bound besides "one context, once": the usual fan-out of one track to
 // two senders (both bound before the first sample / the second bound after the first sample), and a context
 // that is unbound and bound again before writing.
-var c28Bindings = []string{"two", "second-after-first-sample", "rebound"}
+// "second-fails": a second context whose write stream returns an error on every write (a closed
+// PeerConnection); WriteSample reports the error, the healthy context must still see correct packets.
+var c28Bindings = []string{"two", "second-after-first-sample", "rebound", "second-fails"}
 
 var c28Billion = big.NewInt(1_000_000_000)
 
@@ -213,7 +223,7 @@ func TestVerifC28(t *testing.T) {
 	// millions of short-lived tracks: with the default GC pacing (4 MB minimum heap) the collector runs
 	// almost continuously; let the heap grow to ~100 MB between cycles instead
 	defer debug.SetGCPercent(debug.SetGCPercent(2500))
-	c.Rule("cases = codec/clock rate {PCMU 8000, Opus 48000, VP8 90000} x initial (timestamp, sequence number) {(0,0), (2^32-2, 65534), not configured} x every sample sequence up to length 3 (thorough: length 4 for the wrap-around start) over duration {0, 1 tick, 1/3 tick, 20 ms, 33.333333 ms, 1 s} x size {1, 1200, 3000 bytes} x PrevDroppedPackets {0,1,3} (a second, shorter product adds empty samples; sequences up to length 2 use the codec's own payloader, the longer ones a zero-copy MTU splitter installed through WithPayloader); plus periodic runs of 10^4 (thorough 10^5) samples of one fractional-tick duration with and without periodic drops. Each case runs on a fresh TrackLocalStaticSample bound to a recording writer; the sequences up to length 2 (thorough 3) run again on tracks bound to two contexts (both before the first sample / the second after the first sample: both writers must record the same packets) and on a track whose context was unbound and bound again; a class is non-trivial when packets were recorded")
+	c.Rule("cases = codec/clock rate {PCMU 8000, Opus 48000, VP8 90000} x initial (timestamp, sequence number) {(0,0), (2^32-2, 65534), not configured} x every sample sequence up to length 3 (thorough: length 4 for the wrap-around start) over duration {0, 1 tick, 1/3 tick, 20 ms, 33.333333 ms, 1 s} x size {1, 1200, 3000 bytes} x PrevDroppedPackets {0,1,3} (a second, shorter product adds empty samples; sequences up to length 2 use the codec's own payloader, the longer ones a zero-copy MTU splitter installed through WithPayloader); plus periodic runs of 10^4 (thorough 10^5) samples of one fractional-tick duration with and without periodic drops. Each case runs on a fresh TrackLocalStaticSample bound to a recording writer; the sequences up to length 2 (thorough 3) run again on tracks bound to two contexts (both before the first sample / the second after the first sample: both writers must record the same packets) and on a track whose context was unbound and bound again, and on a track with a second context whose every write fails (the periodic runs are repeated in that shape too: the healthy context must not drift); a class is non-trivial when packets were recorded")
 	c.Assume("the duration that corresponds to N dropped packets is N times the duration of the sample that reports them (as the statement's 'corresponding duration')")
 	c.Assume("nothing is demanded about the very first sequence number (the statement speaks of increments only)")
 
@@ -271,7 +281,8 @@ func TestVerifC28(t *testing.T) {
 			params: RTPParameters{Codecs: []RTPCodecParameters{{RTPCodecCapability: cd.cap, PayloadType: 100}}},
 		}
 		switch binding {
-		case "two":
+		case "two", "second-fails":
+			w2.fail = binding == "second-fails"
 			if _, err := track.Bind(ctx2); err != nil {
 				vkit.Fatalf(t, "Bind (second context): %v", err)
 			}
@@ -286,7 +297,7 @@ func TestVerifC28(t *testing.T) {
 		for i := 0; i < n; i++ {
 			s := sampleAt(i)
 			w.cur, w2.cur = i, i
-			if err := track.WriteSample(media.Sample{Data: payload[:s.Size], Duration: time.Duration(s.DurNs), PrevDroppedPackets: s.Dropped}); err != nil {
+			if err := track.WriteSample(media.Sample{Data: payload[:s.Size], Duration: time.Duration(s.DurNs), PrevDroppedPackets: s.Dropped}); err != nil && binding != "second-fails" {
 				vkit.Fatalf(t, "WriteSample: %v", err)
 			}
 			if i == 0 && binding == "second-after-first-sample" {
@@ -415,7 +426,7 @@ func TestVerifC28(t *testing.T) {
 						if kind, text := c28Check(cd.cap.ClockRate, in.ts, l, at, first); kind != "" {
 							c.Violation("binding="+binding+"|"+kind, text+" — case "+vkit.Short(cs()), cs())
 						}
-						if binding != "rebound" {
+						if binding != "rebound" && binding != "second-fails" {
 							// the second context gets exactly the packets of the samples written while it was bound
 							var want []c28Pkt
 							for _, p := range first {
@@ -491,6 +502,14 @@ func TestVerifC28(t *testing.T) {
 		pkts := run(jb.cd, jb.in, false, long, at)
 		if kind, text := c28Check(jb.cd.cap.ClockRate, jb.in.ts, long, at, pkts); kind != "" {
 			c.Violation("periodic|"+kind, text+" — case "+vkit.Short(cs), cs)
+		}
+		// the same run while a second bound context fails every write: the healthy one must not drift
+		c.Eval()
+		csF := cs
+		csF.Binding = "second-fails"
+		healthy, _ := runB(jb.cd, jb.in, false, long, at, "second-fails")
+		if kind, text := c28Check(jb.cd.cap.ClockRate, jb.in.ts, long, at, healthy); kind != "" {
+			c.Violation("periodic|binding=second-fails|"+kind, text+" — case "+vkit.Short(csF), csF)
 		}
 		if len(pkts) == long {
 			c.Distinct(fmt.Sprintf("periodic|%s|dur=%dns|%s", jb.cd.name, jb.dur, jb.pat.name))
